@@ -144,7 +144,10 @@ func findSenderFn(l *core.Ledger, r *rt) (*ssa.Function, *ssa.Select, int) {
 			if s, ok := in.(*ssa.Select); ok {
 				for i, st := range s.States {
 					if st.Dir == types.RecvOnly && isRequestChan(st.Chan.Type()) {
-						sel, idx = s, i
+						// the dequeue the sender waits in; a non-blocking select on the queue is a drain (see senderDrains)
+						if sel == nil || (s.Blocking && !sel.Blocking) {
+							sel, idx = s, i
+						}
 					}
 				}
 			}
@@ -164,6 +167,29 @@ func findSenderFn(l *core.Ledger, r *rt) (*ssa.Function, *ssa.Select, int) {
 		}
 	}
 	return nil, nil, -1
+}
+
+type senderDrain struct {
+	sel *ssa.Select
+	idx int
+}
+
+// senderDrains: the non-blocking selects of the sender that receive from the
+// request queue (other than its main dequeue).
+func senderDrains(fn *ssa.Function, main *ssa.Select) []senderDrain {
+	var out []senderDrain
+	sx.AllInstrs(fn, func(_ sx.Node, in ssa.Instruction) {
+		s, ok := in.(*ssa.Select)
+		if !ok || s == main {
+			return
+		}
+		for i, st := range s.States {
+			if st.Dir == types.RecvOnly && isRequestChan(st.Chan.Type()) {
+				out = append(out, senderDrain{s, i})
+			}
+		}
+	})
+	return out
 }
 
 func c07E3(l *core.Ledger, r *rt) {
@@ -217,7 +243,49 @@ func c07E3(l *core.Ledger, r *rt) {
 		return nn
 	}
 	selNode := sx.NodeOf(sel)
-	w, reach := sx.Reach(sx.Node{B: recvEdge.To, I: -1}, func(n sx.Node) bool { return n == selNode || sx.IsReturn(n) }, sx.Query{
+	// further dequeues: non-blocking selects on the queue (the drain before the sender returns);
+	// what they take out must be answered as well
+	drains := senderDrains(fn, sel)
+	isAnyDequeue := func(n sx.Node) bool {
+		if n == selNode {
+			return true
+		}
+		for _, d := range drains {
+			if n.Instr() == ssa.Instruction(d.sel) {
+				return true
+			}
+		}
+		return false
+	}
+	for di, d := range drains {
+		dEdge, okE := selectCaseEdge(d.sel, d.idx)
+		dVal := selectRecvValue(d.sel, d.idx)
+		if !okE || dVal == nil {
+			l.Bad("C07-E3", fmt.Sprintf("%s/drain%d", key, di), d.sel.Pos(), "a request is taken out of the queue by a non-blocking select and not looked at: its caller is never answered")
+			continue
+		}
+		isDReq := func(o sx.Origin) bool {
+			return o.Kind == sx.KExtract && o.V == d.sel && o.Index == dVal.(*ssa.Extract).Index
+		}
+		dAnswered := func(n sx.Node) bool {
+			c, isCall := n.Instr().(*ssa.Call)
+			if !isCall || !isRouteCall(&c.Call) || !sx.All(sx.Origins(c.Call.Args[1]), isReqMsgID(isDReq)) {
+				return false
+			}
+			lit, okLit := structLiteral(c.Call.Args[2])
+			if !okLit || lit["err"] == nil {
+				return false
+			}
+			nn, _ := errNonNilByConstruction(fn, lit["err"], n)
+			return nn
+		}
+		if w, reachD := sx.Reach(sx.Node{B: dEdge.To, I: -1}, func(n sx.Node) bool { return isAnyDequeue(n) || sx.IsReturn(n) }, sx.Query{BlockNode: dAnswered}); reachD {
+			l.Bad("C07-E3", fmt.Sprintf("%s/drain%d", key, di), sx.PosOf(w.Instr()), "a request taken out of the queue while draining it is not answered with a non-nil error under its id: its caller waits forever")
+		} else {
+			l.OK("C07-E3", fmt.Sprintf("%s/drain%d", key, di), d.sel.Pos(), "every drained request is answered with an error")
+		}
+	}
+	w, reach := sx.Reach(sx.Node{B: recvEdge.To, I: -1}, func(n sx.Node) bool { return isAnyDequeue(n) || sx.IsReturn(n) }, sx.Query{
 		BlockNode: answered,
 		BlockEdge: func(e sx.Edge) bool { return edgeIn(e, okEdges) },
 	})
